@@ -1,0 +1,96 @@
+//! Verification hooks (only compiled with the `verif` feature).
+//!
+//! A process-global hook table that is consulted before and after every
+//! atomic operation of [`crate::atomic::Atom`]. With no table installed the
+//! cost is a single relaxed load and the behaviour is unchanged.
+
+use core::sync::atomic::{AtomicPtr, Ordering};
+
+use crate::FrameId;
+
+/// Kind of the hooked memory operation
+#[derive(Clone, Copy, Debug, PartialEq, Eq, Hash)]
+#[repr(u8)]
+pub enum Kind {
+    Load,
+    Store,
+    Swap,
+    Cas,
+    Rmw,
+    /// Non-atomic bulk write (`AtomicSlice::non_atomic`), init time only
+    Bulk,
+}
+
+/// Hook table
+pub struct Hooks {
+    /// Called directly *before* the operation is executed.
+    pub point: fn(kind: Kind, addr: usize, size: usize),
+    /// Called directly *after* the operation with the value it observed
+    /// (zero extended) and whether it wrote to memory.
+    pub observed: fn(kind: Kind, addr: usize, size: usize, value: u64, wrote: bool),
+}
+
+static HOOKS: AtomicPtr<Hooks> = AtomicPtr::new(core::ptr::null_mut());
+
+/// Install (or remove) the global hook table.
+pub fn install(hooks: Option<&'static Hooks>) {
+    let ptr = match hooks {
+        Some(h) => (h as *const Hooks).cast_mut(),
+        None => core::ptr::null_mut(),
+    };
+    HOOKS.store(ptr, Ordering::SeqCst);
+}
+
+#[inline]
+fn hooks() -> Option<&'static Hooks> {
+    let ptr = HOOKS.load(Ordering::Relaxed);
+    if ptr.is_null() {
+        None
+    } else {
+        Some(unsafe { &*ptr })
+    }
+}
+
+#[inline]
+pub fn point<A>(kind: Kind, atom: &A) {
+    if let Some(h) = hooks() {
+        (h.point)(kind, atom as *const A as usize, size_of::<A>());
+    }
+}
+
+#[inline]
+pub fn point_raw(kind: Kind, addr: usize, size: usize) {
+    if let Some(h) = hooks() {
+        (h.point)(kind, addr, size);
+    }
+}
+
+/// Zero-extended bits of a small plain value
+#[inline]
+fn bits<V: Copy>(v: &V) -> u64 {
+    let mut out = [0u8; 8];
+    let n = size_of::<V>().min(8);
+    unsafe { core::ptr::copy_nonoverlapping((v as *const V).cast::<u8>(), out.as_mut_ptr(), n) };
+    u64::from_le_bytes(out)
+}
+
+#[inline]
+pub fn observed<A, V: Copy>(kind: Kind, atom: &A, value: &V, wrote: bool) {
+    if let Some(h) = hooks() {
+        (h.observed)(
+            kind,
+            atom as *const A as usize,
+            size_of::<A>(),
+            bits(value),
+            wrote,
+        );
+    }
+}
+
+/// Row hint that [`crate::lower::Lower::get`] expects for a frame
+pub fn frame_row(frame: FrameId) -> crate::bitfield::RowId {
+    frame.as_row()
+}
+
+pub use crate::bitfield::RowId;
+pub use crate::bitfield::first_zeros_aligned_pub as first_zeros_aligned;
